@@ -131,6 +131,15 @@ def run(ctx):
                    {"id": tid, "line": int(l), "col": int(c), "offset": int(off), "identifier": word, "tast_type": exp_n,
                     "hover": got_u, "cst_context": cstctx, "src": vlib.unesc(src)})
 
+    # ---------------------------------------------------------------- hover never shows an inference variable in an accepted program
+    HVG = [r for r in rows if r[0] == "HVG"]
+    for r in HVG:
+        _, tid, l, c, got, cstctx, src = (r + [""] * 7)[:7]
+        ctx.report({"oracle": "hover-ground", "context": cstctx.split(">")[0]},
+                   f"hover at ({l},{c}) of a program the compiler accepts reports `{vlib.unesc(got)}`: an inference variable, "
+                   f"which no type the compiler assigned in an accepted program contains",
+                   {"id": tid, "line": int(l), "col": int(c), "hover": vlib.unesc(got), "cst_context": cstctx, "src": vlib.unesc(src)})
+
     # ---------------------------------------------------------------- completion validity
     n_cmp = n_cmp_ok = n_cmp_skip = 0
     cmp_kinds = {}
@@ -240,6 +249,14 @@ def run(ctx):
         "hover_agreement": {"checked": n_hov, "agree": n_hov_agree, "by_node": hov_kinds,
                             "pipeline_corpus_programs_hovered": len({r[1] for r in HOV if r[1].startswith("hovercorpus:")}),
                             "late_resolved_programs_hovered": len({r[1] for r in HOV if r[1].startswith("late:")}),
+                            "late_resolved_fixed_by_later_context_programs_hovered": len({r[1] for r in HOV if r[1].startswith("latefix:")}),
+                            "expression_hovers": sum(v for k, v in hov_kinds.items() if k.startswith(("let-value", "let-sub", "expr-node"))),
+                            "expression_hover_rule": "for every `let <var> [: T] = e` of an accepted text: the tokens of e on which a hover is, by the query's own rule, a hover "
+                                                     "on e itself (own tokens + delimiters of its argument / field / parameter / arm list; first, middle, last) must report the type "
+                                                     "of the TAST initialiser (under a dyn coercion: of the coerced expression); the same for the sub-expressions of e reached through "
+                                                     "forms whose TAST children are the CST children one to one (arguments of a call of a name / of a constructor, tuple and array items, "
+                                                     "operands of binary and prefix operators; kind and arity checked at every step, depth <= 4)",
+                            "unground_hovers_in_accepted_texts": len(HVG),
                             "distinct_types_hovered": len({r[6] for r in HOV})},
         "line_ending_twins": {"positions_compared": sum(int(stat(r, "twin_checked")) for r in T),
                               "texts": sum(1 for r in T if int(stat(r, "twin_checked")) > 0),
@@ -262,7 +279,11 @@ def run(ctx):
         "crash-freedom of the Rust code behind the offsets (ast::lower on trees with parse errors, hir, typer) is searched over the listed texts and positions, not proved",
         "the token sequence of the syntax tree tiles the text (C12) — hypothesis of hover_no_bad_offset",
         "the harness is built with the release profile (no overflow checks), as the wasm playground is; in a debug build `start + col` of the unfixed code panics instead of wrapping",
-        "hover agreement is checked at identifiers that the TAST records with a source pointer (variables, pattern binders, closure parameters) on texts that compile",
+        "hover agreement is checked at identifiers that the TAST records with a source pointer (variables, pattern binders, closure parameters) and at the "
+        "initialiser expression of every `let` with a variable binder (any expression kind the query maps: calls, literals, struct / tuple / array literals, closures, "
+        "match, while, operators) and its argument / item / operand sub-expressions on texts that compile; other expressions (statement expressions, block tails, "
+        "match arms, closure bodies, receivers) are only covered by `hover-ground`: no inference variable "
+        "in any hover answer at any swept position of an accepted text",
         "a completion is valid if inserting it does not produce a diagnostic that a non-existent name inserted at the same place also produces and that was not there before",
     ]
     tb = ["Lean 4 kernel", "axioms: " + ",".join(ctx.proof["axioms"] or ["none"]),
